@@ -29,7 +29,8 @@ Inductive scase :=
 | MutTable (j : json) (r : option table_def)
 | MutPlan (j : json) (r : option plan)
 | MutConfig (j : json) (r : option vconfig)
-| Rev (np : plan) (baseline : schema) (filled : fill_outcome) (valid : result unit validate_error).
+| Rev (np : plan) (baseline : schema) (filled : fill_outcome) (valid : result unit validate_error)
+| ValPlan (p : plan) (valid : result unit validate_error).     (* the loader's validate_migration_plan on any plan *)
 
 Definition opt_eqb {A} (d : forall x y : A, {x = y} + {x <> y}) (a b : option A) : bool :=
   dec_b (option_eq_dec d) a b.
@@ -72,6 +73,7 @@ Definition check_case (c : scase) : list nat :=
           | Some w => if vres_eqb (validate_migration_plan w) valid then [] else [7%nat]
           | None => []
           end)
+  | ValPlan p valid => if vres_eqb (validate_migration_plan p) valid then [] else [8%nat]
   end.
 
 Fixpoint mismatches_from (i : nat) (cs : list scase) : list (nat * list nat) :=
